@@ -185,6 +185,9 @@ impl Acc {
         match &v.outcome {
             Outcome::Skip(why) => {
                 self.rep.skipped += 1;
+                if std::env::var_os("BVERIF_DEBUG").is_some() {
+                    eprintln!("SKIP ({why}):\n{rendered}\n----");
+                }
                 let k: String = why.chars().take(60).collect();
                 *self.rep.skip_reasons.entry(k).or_insert(0) += 1;
             }
@@ -305,8 +308,62 @@ where
     L: Layer,
     S: Strategy<Value = L::Case>,
 {
+    explore_one(layer, strat, n, ctx, 0).0
+}
+
+/// Sharded exploration: `shards` independent generators (seed + shard index) run in parallel;
+/// useful when generating cases costs as much as judging them.  `make` builds the strategy
+/// (strategies are not Sync, so every shard builds its own).
+pub fn explore_par<L, S, F>(layer: &L, make: F, n: usize, ctx: &Ctx) -> LayerReport
+where
+    L: Layer,
+    S: Strategy<Value = L::Case>,
+    F: Fn() -> S + Sync,
+{
+    let shards = (n / 1024).clamp(1, 12);
+    let per = n.div_ceil(shards);
+    let parts: Vec<(LayerReport, HashSet<u64>)> = (0..shards).into_par_iter().map(|k| explore_one(layer, make(), per, ctx, k as u64)).collect();
+    let mut it = parts.into_iter();
+    let (mut rep, mut seen) = it.next().unwrap();
+    for (r, s) in it {
+        rep.generated += r.generated;
+        rep.evaluations += r.evaluations;
+        rep.skipped += r.skipped;
+        rep.inconclusive += r.inconclusive;
+        for (k, v) in r.excluded {
+            *rep.excluded.entry(k).or_insert(0) += v;
+        }
+        for (k, v) in r.labels {
+            *rep.labels.entry(k).or_insert(0) += v;
+        }
+        for (k, v) in r.skip_reasons {
+            *rep.skip_reasons.entry(k).or_insert(0) += v;
+        }
+        for smp in r.samples {
+            if rep.samples.len() < 10 {
+                rep.samples.push(smp);
+            }
+        }
+        for f in r.failures {
+            if rep.failures.len() < ctx.max_failures && !rep.failures.iter().any(|g| g.rendered == f.rendered) {
+                rep.failures.push(f);
+            }
+        }
+        rep.notes.extend(r.notes);
+        seen.extend(s);
+    }
+    rep.distinct_nontrivial = seen.len() as u64;
+    rep.notes.push(format!("{shards} generator shards (seed + shard index)"));
+    rep
+}
+
+fn explore_one<L, S>(layer: &L, strat: S, n: usize, ctx: &Ctx, shard: u64) -> (LayerReport, HashSet<u64>)
+where
+    L: Layer,
+    S: Strategy<Value = L::Case>,
+{
     let cfg = Config {
-        rng_seed: RngSeed::Fixed(ctx.seed ^ hash_str(&layer.name())),
+        rng_seed: RngSeed::Fixed(ctx.seed ^ hash_str(&layer.name()) ^ shard.wrapping_mul(0x9E3779B97F4A7C15)),
         failure_persistence: None,
         cases: n as u32,
         ..Config::default()
@@ -381,7 +438,7 @@ where
     if gen_errors > 0 {
         acc.rep.notes.push(format!("{gen_errors} strategy rejections"));
     }
-    acc.rep
+    (acc.rep, acc.seen)
 }
 
 /// Enumeration (bounded-exhaustive or a fixed list): no shrinking, first failures in
